@@ -1,5 +1,6 @@
 import Driver.Common
 import W2c2Verif.Model.Instantiate
+import W2c2Verif.Model.InitMem
 
 /-!
   `I inst key=value …` — post-instantiation state (before the start function) of a module description as
@@ -8,9 +9,16 @@ import W2c2Verif.Model.Instantiate
   keys: mi ti gi (numbers of imported memories/tables/globals), mems tables (`min:max,…`), globals (`c:<hex>` | `g:<idx>`),
   datas (`a|p:<mem>:<c:hex|g:idx>:<hexbytes|->` separated by `;`), elems (`<table>:<c:hex|g:idx>:<f,f…|->;…`), start (0|1),
   hmems (pages of every embedder memory object), htables (sizes), hglobals (hex values),
-  rmem rtable rglobal (address returned by the resolver for the k-th import, `n` = NULL); `-` = empty list.
-  answer: `val mimp=… timp=… gimp=… omems=… otables=… globals=… hglobals=… mem<addr>=<size>[/<off>:<hexbytes>…] … tab<addr>=<f|->,… | steps <same?>`
-          or `ub <kind>` / `trap <code>` / `oof`.
+  rmem rtable rglobal (address returned by the resolver for the k-th import, `n` = NULL); `-` = empty list;
+  shared (0|1 per defined memory), mode (arrays|gnu-ld|sectcreate1|sectcreate2, default arrays),
+  hfill (`<host memory>:<offset>:<hexbytes>;…` bytes the embedder wrote into its memories before instantiation).
+  answer: `val mimp=… timp=… gimp=… omems=… otables=… globals=… hglobals=… mem<addr>=<size>[/<off>:<hexbytes>…] … tab<addr>=<f|->,… | steps <same?> <emitted same?>`
+          or `ub <kind>` / `trap <code>` / `oof`.  The state shown is that of `Model.InitMem.initAllE mode` (the emitted InitMemories of
+          that mode, allocation through the regenerated wasmMemoryAllocate); `emitted same` = it equals `Model.Inst.initAll`.
+
+  `I initmem mode=… mi=… mems=… shared=… datas=…` — the text of `<module>InitMemories` as `Model.InitMem.render` prints it and the data it
+  refers to: `text <tokens> | blob <hex|-> | arrays <hex|-|n>;… | emitted <statements|none>`; tokens: the literal chunks, `M<i>` = `i-><memory i>`,
+  `P<i>` = `parent-><memory i>`, `U<i>` = `(*i-><memory i>)`, numbers, `d<k>`, `E<c:hex|g:idx>` = the offset expression.
 -/
 namespace Driver
 open W2c2Verif Model.Inst
@@ -78,8 +86,72 @@ def showSt (s : St) : String :=
   s!"omems={dash (showNats s.2.mems)} otables={dash (showNats s.2.tables)} globals={dash (",".intercalate (s.2.globals.map toHex))} " ++
   s!"hglobals={dash (",".intercalate (s.1.globals.map toHex))} {mems} {tabs}"
 
+open W2c2Verif.Model.InitMem W2c2Verif.Gen.InitMem in
+def parseMode (s : String) : Option Mode :=
+  if s = "arrays" || s = "-" then some .arrays else if s = "gnu-ld" then some .gnuld
+  else if s = "sectcreate1" then some .sectcreate1 else if s = "sectcreate2" then some .sectcreate2 else none
+
+def showCE : ConstE → String
+  | .const b => "c:" ++ toHex b
+  | .globalGet k => "g:" ++ toString k
+
+open W2c2Verif.Model.InitMem in
+def showTok : Tok → String
+  | .kw k => k.text
+  | .memRef i => s!"M{i}"
+  | .memRefParent i => s!"P{i}"
+  | .num n => toString n
+  | .segName k => s!"d{k}"
+  | .memUse i => s!"U{i}"
+  | .expr e => "E" ++ showCE e
+  | .bad => "?"
+
+open W2c2Verif.Model.InitMem in
+def showEmitted : Emitted → String
+  | .alloc i a b => s!"alloc:{i}:{a}:{b}"
+  | .allocShared i a b => s!"allocShared:{i}:{a}:{b}"
+  | .ptrInit k off => s!"ptr:{k}:{off}"
+  | .loadArr m e k len => s!"loadArr:{m}:{showCE e}:{k}:{len}"
+  | .loadBlob m e off len => s!"loadBlob:{m}:{showCE e}:{off}:{len}"
+
+def hexBytes (l : List UInt8) : String := dash (String.join (l.map hex2))
+
+def parseDatas (s : String) : Option (List DataSeg) :=
+  (listOf s ";").mapM fun t => match t.splitOn ":" with
+    | [m, idx, a, b, bytes] => do
+      some ({ passive := m = "p", mem := (← idx.toNat?), offset := (← parseCE a b), bytes := (← parseBytesI bytes) } : DataSeg)
+    | _ => none
+
+def parseShared (s : String) : List Bool := (listOf s ",").map (· = "1")
+
+/-- `<host memory>:<offset>:<hexbytes>;…` -/
+def applyFill (mems : List (Array UInt8)) (s : String) : Option (List (Array UInt8)) :=
+  (listOf s ";").foldlM (fun ms t => match t.splitOn ":" with
+    | [p, off, bytes] => do
+      let p ← p.toNat?
+      let off ← off.toNat?
+      let bs ← parseBytesI bytes
+      let a ← ms[p]?
+      some (ms.set p (writeArr a off bs))
+    | _ => none) mems
+
+open W2c2Verif.Model.InitMem in
+def initmemCmd (rest : List String) : Option String := do
+  let mode ← parseMode (kv rest "mode")
+  let mi ← (kv rest "mi").toNat?
+  let mems ← parsePairs (kv rest "mems")
+  let datas ← parseDatas (kv rest "datas")
+  let d : ModDesc := { memImports := mi, mems, memShared := parseShared (kv rest "shared"), datas }
+  let src := sourcesOf mode d
+  let arrays := ";".intercalate (src.arrays.map fun | some a => hexBytes a | none => "n")
+  let em := match parse (render mode d) with
+    | some es => dash (" ".intercalate (es.map showEmitted))
+    | none => "none"
+  some s!"text {" ".intercalate ((render mode d).map showTok)} | blob {hexBytes src.blob} | arrays {dash arrays} | emitted {em}"
+
 def instCmd (ws : List String) : Option String :=
   match ws with
+  | "I" :: "initmem" :: rest => some ((initmemCmd rest).getD "err parse")
   | "I" :: "inst" :: rest =>
     let r : Option String := do
       let mi ← (kv rest "mi").toNat?
@@ -89,10 +161,8 @@ def instCmd (ws : List String) : Option String :=
       let tables ← parsePairs (kv rest "tables")
       let globals ← (listOf (kv rest "globals") ",").mapM fun t => match t.splitOn ":" with
         | [a, b] => parseCE a b | _ => none
-      let datas ← (listOf (kv rest "datas") ";").mapM fun t => match t.splitOn ":" with
-        | [m, idx, a, b, bytes] => do
-          some ({ passive := m = "p", mem := (← idx.toNat?), offset := (← parseCE a b), bytes := (← parseBytesI bytes) } : DataSeg)
-        | _ => none
+      let datas ← parseDatas (kv rest "datas")
+      let mode ← parseMode (kv rest "mode")
       let elems ← (listOf (kv rest "elems") ";").mapM fun t => match t.splitOn ":" with
         | [tb, a, b, fs] => do
           some ({ table := (← tb.toNat?), offset := (← parseCE a b), funcs := (← (listOf fs ",").mapM String.toNat?) } : ElemSegD)
@@ -103,20 +173,23 @@ def instCmd (ws : List String) : Option String :=
       let rmem ← parsePtrs (kv rest "rmem")
       let rtable ← parsePtrs (kv rest "rtable")
       let rglobal ← parsePtrs (kv rest "rglobal")
-      let d : ModDesc := { memImports := mi, tableImports := ti, globalImports := gi, mems, tables, globals, datas, elems,
-                           hasStart := kv rest "start" = "1" }
-      let w : World := { mems := hmems.map fun p => Array.replicate (p * pageSize) 0,
-                         tables := htables.map fun n => Array.replicate n none, globals := hglobals }
+      let d : ModDesc := { memImports := mi, tableImports := ti, globalImports := gi, mems, memShared := parseShared (kv rest "shared"),
+                           tables, globals, datas, elems, hasStart := kv rest "start" = "1" }
+      let hm ← applyFill (hmems.map fun p => Array.replicate (p * pageSize) 0) (kv rest "hfill")
+      let w : World := { mems := hm, tables := htables.map fun n => Array.replicate n none, globals := hglobals }
       let res : Resolver := { mem := fun k => (rmem[k]?).join, table := fun k => (rtable[k]?).join, global := fun k => (rglobal[k]?).join }
-      let a := initAll d res w
+      let a := W2c2Verif.Model.InitMem.initAllE mode d res w
+      let a0 := initAll d res w
       let b := instantiate d res .val w
-      let same := match a, b with
+      let eqSt : Out St → Out St → Bool := fun a b => match a, b with
         | .val x, .val y => x.2 == y.2 && x.1.globals == y.1.globals && x.1.mems == y.1.mems && x.1.tables == y.1.tables
         | .ub k, .ub k' => k == k'
         | _, _ => false
+      let same := eqSt a0 b
+      let esame := eqSt a a0
       some (match a with
-        | .val s => s!"val {showSt s} | steps {same}"
-        | .ub k => s!"ub {k.name} | steps {same}"
+        | .val s => s!"val {showSt s} | steps {same} {esame}"
+        | .ub k => s!"ub {k.name} | steps {same} {esame}"
         | .trap t => s!"trap {t.code}"
         | .oof => "oof")
     some (r.getD "err parse")
